@@ -27,6 +27,22 @@ type inputCase struct {
 	Targets []uint64 `json:"targets"`
 	Hashes  []string `json:"hashes"`
 	Proof   []string `json:"proof"`
+	// Task is set for a call that never returned although the same call returns on a fresh
+	// instance: the hang depends on the earlier calls of the (deterministic) enumeration task,
+	// which the replay re-runs.
+	Task  *inTask `json:"task,omitempty"`
+	Index int64   `json:"index,omitempty"`
+}
+
+// inTask identifies one enumeration task (one state x one verifier) of the input engine.
+type inTask struct {
+	Kind     string `json:"kind"` // triples | synth | edits
+	T        int    `json:"T,omitempty"`
+	P        int    `json:"P,omitempty"`
+	Mismatch bool   `json:"mismatch,omitempty"`
+	T0       int    `json:"t0,omitempty"`
+	K        int    `json:"K,omitempty"`
+	Double   bool   `json:"double,omitempty"`
 }
 
 func hexHs(hs []Hash) []string {
@@ -305,6 +321,8 @@ type inWorker struct {
 	tick    atomic.Int64
 	busy    atomic.Bool
 	stopped bool
+	task    *inTask // the task being run (for reporting sequence-dependent hangs)
+	tick0   int64   // tick at the start of the task
 }
 
 const hangLimit = 20 * time.Second
@@ -337,6 +355,8 @@ func runInputTasks(c *Ctx, n int, task func(i int, w *inWorker)) {
 				}
 				w.busy.Store(true)
 				w.stopped = false
+				w.task = nil
+				w.tick0 = w.tick.Load()
 				task(i, w)
 				w.busy.Store(false)
 			}
@@ -345,8 +365,10 @@ func runInputTasks(c *Ctx, n int, task func(i int, w *inWorker)) {
 	go func() { wg.Wait(); close(done) }()
 	last := make([]int64, len(workers))
 	since := make([]time.Time, len(workers))
+	first := make([]time.Time, len(workers)) // since when the tick has not moved at all
 	for i := range since {
 		since[i] = time.Now()
+		first[i] = time.Now()
 		last[i] = -1
 	}
 	tk := time.NewTicker(2 * time.Second)
@@ -364,6 +386,7 @@ func runInputTasks(c *Ctx, n int, task func(i int, w *inWorker)) {
 				if t != last[i] || !w.busy.Load() {
 					last[i] = t
 					since[i] = time.Now()
+					first[i] = time.Now()
 					continue
 				}
 				if time.Since(since[i]) < hangLimit {
@@ -380,15 +403,39 @@ func runInputTasks(c *Ctx, n int, task func(i int, w *inWorker)) {
 				if hung == 2 {
 					c.Col.Add(Violation{Prop: "C04", Sig: "verification entry point does not return: " + verClass(cs.Ver), Detail: fmt.Sprintf("no return within %v (three executions)", hangLimit), Case: mkCase("inputs", *cs)})
 					c.Cov.NotExhaustive("enumeration stopped at the first confirmed non-terminating call")
-					if c.Prop != "C04" {
-						fmt.Println("NOTE: a verification call does not terminate (C04's concern); this run cannot complete")
-					}
-					os.Exit(Finish(c))
+					hangExit(c)
+				}
+				// The same call returns on a fresh instance. If the worker stays stuck for three
+				// times the limit while the process is demonstrably alive (the isolated
+				// re-executions just ran to completion), the call hangs because of the earlier
+				// calls made on the same instance (e.g. a lock leaked on a rejection path).
+				if time.Since(first[i]) >= 3*hangLimit && w.task != nil {
+					cs.Task = w.task
+					cs.Index = t - w.tick0
+					c.Col.Add(Violation{Prop: "C04", Sig: "a verification call never returns after earlier calls on the same instance (it returns on a fresh instance): " + verClass(cs.Ver),
+						Detail: fmt.Sprintf("stuck for %v at call %d of the enumeration task (state %q, verifier %s); the replay re-runs the task", time.Since(first[i]).Round(time.Second), cs.Index, cs.Alive, cs.Ver), Case: mkCase("inputs", *cs)})
+					c.Cov.NotExhaustive("enumeration stopped at a call that never returned")
+					hangExit(c)
 				}
 				since[i] = time.Now()
 			}
 		}
 	}
+}
+
+// replayHang is set while a recorded hang is being replayed: a confirmed hang then means
+// "reproduced".
+var replayHang bool
+
+func hangExit(c *Ctx) {
+	if replayHang {
+		fmt.Println("REPRODUCED: the call does not return")
+		os.Exit(1)
+	}
+	if c.Prop != "C04" {
+		fmt.Println("NOTE: a verification call does not terminate (C04's concern); this run cannot complete")
+	}
+	os.Exit(Finish(c))
 }
 
 // stop reports (and records once per task) that the run's deadline has passed; long tasks poll it.
@@ -531,7 +578,8 @@ func targetAlphabet(R uint8) []uint64 {
 type tripleCfg struct {
 	Nmin, Nin, T, P int
 	Vers            []verSpec
-	Mismatch        bool // also lists with len(hashes) != len(targets) (C04)
+	Mismatch        bool       // also lists with len(hashes) != len(targets) (C04)
+	Only            *inputCase // replay: only the task of this case
 }
 
 // enumTriples enumerates, for every state with Nmin<=N<=Nin and every verifier, every
@@ -557,6 +605,9 @@ func enumTriples(c *Ctx, cfg tripleCfg, props map[string]bool) {
 					if cfg.T == 0 && t0 >= 0 {
 						break
 					}
+					if o := cfg.Only; o != nil && (o.Alive != s.Key() || o.N != N || o.Ver != spec.ID || o.Task.T0 != t0) {
+						continue
+					}
 					tasks = append(tasks, task{s, spec, t0})
 				}
 			}
@@ -566,6 +617,7 @@ func enumTriples(c *Ctx, cfg tripleCfg, props map[string]bool) {
 	var sampled int32
 	runInputTasks(c, len(tasks), func(i int, w *inWorker) {
 		tk := tasks[i]
+		w.task = &inTask{Kind: "triples", T: cfg.T, P: cfg.P, Mismatch: cfg.Mismatch, T0: tk.t0}
 		v, err := buildVinst(tk.spec, tk.s, nil)
 		if err != nil || v == nil {
 			c.Col.Note("inputs: instance could not be built: " + tk.spec.ID)
@@ -786,6 +838,10 @@ func enumSynth(c *Ctx, T, P int) {
 // of at most K leaves in position order and in reversed order, the honest proof and every
 // single edit of it (and every pair of edits when double is set) are fed to every verifier.
 func enumEdits(c *Ctx, Nlo, Nhi, K int, double bool, vers []verSpec, props map[string]bool) {
+	enumEditsOnly(c, Nlo, Nhi, K, double, vers, props, nil)
+}
+
+func enumEditsOnly(c *Ctx, Nlo, Nhi, K int, double bool, vers []verSpec, props map[string]bool, only *inputCase) {
 	type task struct {
 		s    ref.State
 		spec verSpec
@@ -800,6 +856,9 @@ func enumEdits(c *Ctx, Nlo, Nhi, K int, double bool, vers []verSpec, props map[s
 			}
 			nstates++
 			for _, sp := range vers {
+				if only != nil && (only.Alive != s.Key() || only.Ver != sp.ID) {
+					continue
+				}
 				tasks = append(tasks, task{s, sp})
 			}
 		}
@@ -807,6 +866,7 @@ func enumEdits(c *Ctx, Nlo, Nhi, K int, double bool, vers []verSpec, props map[s
 	c.Cov.AddStates(int64(nstates))
 	runInputTasks(c, len(tasks), func(i int, w *inWorker) {
 		tk := tasks[i]
+		w.task = &inTask{Kind: "edits", K: K, Double: double}
 		v, err := buildVinst(tk.spec, tk.s, nil)
 		if err != nil || v == nil {
 			return
@@ -941,6 +1001,25 @@ func init() {
 		var cs inputCase
 		if err := json.Unmarshal(payload, &cs); err != nil {
 			return nil, err
+		}
+		if cs.Task != nil {
+			// a hang that depends on earlier calls of the task: re-run the task under the watchdog
+			replayHang = true
+			c := NewCtx(prop, "quick")
+			c.Deadline = time.Now().Add(30 * time.Minute)
+			c.Workers = 1
+			spec, ok := specByID(cs.Ver)
+			if !ok {
+				return nil, fmt.Errorf("unknown verifier %s", cs.Ver)
+			}
+			switch cs.Task.Kind {
+			case "triples":
+				enumTriples(c, tripleCfg{Nmin: cs.N, Nin: cs.N, T: cs.Task.T, P: cs.Task.P, Mismatch: cs.Task.Mismatch, Vers: []verSpec{spec}, Only: &cs}, map[string]bool{})
+			case "edits":
+				enumEditsOnly(c, cs.N, cs.N, cs.Task.K, cs.Task.Double, []verSpec{spec}, map[string]bool{}, &cs)
+			}
+			replayHang = false
+			return nil, nil // the task ran to completion: not reproduced
 		}
 		vs, timedOut := evalInputCaseTimed(cs, hangLimit)
 		if timedOut {
